@@ -56,6 +56,7 @@ class State:
         self.children = {}
         self.epoch = 0
         self.active = 0                 # connections being handled right now
+        self.keydir = None              # the guest's key directory (same file system): looked at when an attestation arrives
 
 
 S = State()
@@ -129,6 +130,19 @@ def status_body():
     elif S.named_repr == "empty":
         d["keyGuid"] = ""
     return json.dumps(d)
+
+
+def key_file_state(guid):
+    if not S.keydir or not guid:
+        return "unknown"
+    try:
+        with open(os.path.join(S.keydir, guid + ".key"), "rb") as f:
+            d = json.loads(f.read().decode("utf-8", "replace"))
+        return "key" if isinstance(d, dict) and d.get("guid") == guid and d.get("key") == S.keys.get(guid) else "corrupt"
+    except FileNotFoundError:
+        return "none"
+    except (OSError, ValueError):
+        return "corrupt"
 
 
 def new_key():
@@ -259,6 +273,10 @@ class Handler(socketserver.BaseRequestHandler):
             if kind in ("attest", "signed"):
                 ok, guid, why = verify(method, target, headers, body)
                 rec.update({"mac_ok": ok, "mac_guid": guid, "mac_why": why})
+                if kind == "attest":
+                    # observation only (no answer depends on it): is the key the guest asks to latch on its disk right
+                    # now, complete and equal to what was issued?
+                    rec["file_at_attest"] = key_file_state(path_guid)
             else:
                 rec["has_authz"] = any(n.lower() == AUTHZ for n, v in headers)
             S.log.append(rec)
@@ -330,7 +348,7 @@ def control(cmd):
     op = cmd.get("op")
     if op == "set":
         with S.lock:
-            for k in ("doc", "named", "named_repr", "latched", "hold"):
+            for k in ("doc", "named", "named_repr", "latched", "hold", "keydir"):
                 if k in cmd:
                     setattr(S, k, cmd[k])
             if "keys" in cmd:
